@@ -222,6 +222,11 @@ Proof.
     apply eqb_t in E. subst dd. right. split; [simpl; lia|].
     intros u. apply cnt_zero_notdone; [apply (pi_thr s HP)|intros d' Hin; eapply (u_cb s HU); exact Hin| |exact Ed].
     destruct (ds s d); simpl in Heqo0; try discriminate; reflexivity.
+  - destruct (dcb s d) eqn:Ed; [|left; simpl; lia].
+    cbn [norm cnt chd]. destruct (Nat.eqb d dd) eqn:E; [|left; simpl; lia].
+    apply eqb_t in E. subst dd. right. split; [simpl; lia|].
+    intros u. apply cnt_zero_notdone; [apply (pi_thr s HP)|intros d' Hin; eapply (u_cb s HU); exact Hin| |exact Ed].
+    destruct (ds s d); simpl in *; try discriminate; reflexivity.
 Qed.
 
 Lemma in_cnt s d p : In (IAddCbD d) p -> 1 <= cnt s d p.
@@ -290,6 +295,8 @@ Proof.
   - apply (u_cb s' HU u). exact Hin.
   - destruct (dcb s d); simpl in Hin; [destruct Hin as [E|[E|[]]]; discriminate E|destruct Hin].
   - apply (u_cb s' HU u). exact Hin.
+  - apply (u_cb s' HU u). exact Hin.
+  - destruct (dcb s d); simpl in Hin; [destruct Hin as [E|[E|[]]]; discriminate E|destruct Hin].
   - apply (u_cb s' HU u). exact Hin.
 Qed.
 
